@@ -28,6 +28,10 @@ import (
 // mod Q and therefore fires strictly between boundaries.
 const Q = 1 << 20
 
+// MaxStates caps the per-process set of distinct abstract states (a coverage
+// measure only); beyond it the set saturates and the count is a lower bound.
+const MaxStates = 250000
+
 const (
 	MaxSlots  = 640
 	MaxScheds = 16
@@ -811,7 +815,7 @@ func (s *Sim) step() bool {
 	if s.Inspect != nil {
 		s.Inspect(s)
 	}
-	if s.States != nil {
+	if s.States != nil && len(s.States) < MaxStates {
 		s.States[s.abstractState()] = struct{}{}
 	}
 	if s.Invalid != "" || s.abort {
